@@ -170,7 +170,7 @@ def generate(rng, tier):
             want = log if k == 0 else log[:k - 1] + [log[k - 1] + '!']
             yield Scn('cb%d' % n, lines, {'class': 'parse/failat=%s' % ('none' if k == 0 else 'k'), 'log': want, 'k': k, 'kind': 'parse'})
     # by-name setters with a pre-set validation callback
-    for path, setter, args in ((b'j', 'setint', ['-5']), (b'j', 'setint', ['5']), (b'f', 'setfloat', ['c004000000000000']), (b's', 'setstr', [hx(b'new')]),
+    for path, setter, args in ((b'j', 'setint', ['-5']), (b'j', 'setint', ['5']), (b'f', 'setfloat', ['c004000000000000']), (b's', 'setstr', [hx(b'new')]), (b's', 'setstr', ['-']), (b'sl', 'setstr', ['-']),
                                (b'il', 'setint', ['-3']), (b'sec|a', 'setint', ['-9'])):
         for K in (0, 1):
             for fail in (0, 1):
